@@ -223,7 +223,7 @@ func (v *Verifier) directEffectsX(fv *FuncVC, fn *ssa.Function, bodyOnly bool) *
 			case it.All:
 				d.all = true
 			case it.TypeT != "":
-				add(fv.readKeys(it.TypeT+"::"+it.Field, pkgOf(fn)))
+				add(fv.readKeys(it.keySpec(), pkgOf(fn)))
 			default:
 				addS(v.assignsItemKeys(fv, fn, it))
 			}
@@ -344,7 +344,7 @@ func (v *Verifier) directEffectsX(fv *FuncVC, fn *ssa.Function, bodyOnly bool) *
 							if it.All {
 								d.all = true
 							} else if it.TypeT != "" {
-								add(fv.readKeys(it.TypeT+"::"+it.Field, n.Obj().Pkg()))
+								add(fv.readKeys(it.keySpec(), n.Obj().Pkg()))
 							} else {
 								addS(v.assignsItemKeys(fv, fn, it))
 							}
@@ -705,7 +705,7 @@ func (fv *FuncVC) callWriteSetX(fr *Frame, x ssa.CallInstruction, withAllocs boo
 					if it.All {
 						all = true
 					} else if it.TypeT != "" {
-						for _, hk := range fv.readKeys(it.TypeT+"::"+it.Field, n.Obj().Pkg()) {
+						for _, hk := range fv.readKeys(it.keySpec(), n.Obj().Pkg()) {
 							acc[hk.Key] = true
 						}
 					} else if sel, ok := it.Expr.(*SSel); ok {
@@ -759,7 +759,7 @@ func (fv *FuncVC) callWriteSetX(fr *Frame, x ssa.CallInstruction, withAllocs boo
 						if it.All {
 							all = true
 						} else if it.TypeT != "" {
-							for _, hk := range fv.readKeys(it.TypeT+"::"+it.Field, pkgOf(fr.fn)) {
+							for _, hk := range fv.readKeys(it.keySpec(), pkgOf(fr.fn)) {
 								acc[hk.Key] = true
 							}
 						} else {
@@ -778,7 +778,7 @@ func (fv *FuncVC) callWriteSetX(fr *Frame, x ssa.CallInstruction, withAllocs boo
 							if it.All {
 								all = true
 							} else if it.TypeT != "" {
-								for _, hk := range fv.readKeys(it.TypeT+"::"+it.Field, n.Obj().Pkg()) {
+								for _, hk := range fv.readKeys(it.keySpec(), n.Obj().Pkg()) {
 									acc[hk.Key] = true
 								}
 							} else {
